@@ -57,3 +57,34 @@ def recheck_of_unsat_state(case, idx):
         if r.answer(k) == "unsat" and all(x in act_j for x in act_k):
             return True
     return False
+
+
+def is_lookahead(script):
+    o = opts(script)
+    return o.get(":pure-lookahead") == "true" or o.get(":picky") == "true"
+
+
+def max_depth_before(script, idx=None):
+    d = m = 0
+    for i, c in enumerate(script["cmds"]):
+        if idx is not None and i >= idx:
+            break
+        if c[0] == "push":
+            d += c[1]
+        elif c[0] == "pop":
+            d = max(0, d - c[1])
+        m = max(m, d)
+    return m
+
+
+def lookahead_deep(script, idx=None):
+    """':pure-lookahead' / ':picky' with three or more assertion levels pushed: clauses of the innermost frames are
+    ignored ('unsatisfied clause' is even printed), sat is answered on unsat sets and models are wrong."""
+    return is_lookahead(script) and max_depth_before(script, idx) >= 3
+
+
+def uf_arith_after_pop(script, idx=None):
+    name = script["logic"]
+    if name not in ("QF_UFLRA", "QF_UFLIA", "QF_UFRDL", "QF_UFIDL", "QF_AUFLRA", "QF_AUFLIA", "QF_AUFLIRA", "ALL"):
+        return False
+    return any(c[0] == "pop" for c in script["cmds"][:idx])
